@@ -1,7 +1,10 @@
 (** C06 — Point / expression algebra is a faithful vector-space and inner-product calculus.
-    Property theorems only; proofs live in Proofs/SemLemmas.v and Proofs/DictLemmas.v. *)
+    Property theorems only; proofs live in Proofs/SemLemmas.v and Proofs/DictLemmas.v; the no-mutation clause is a
+    generated decidable obligation (Model/PurityPlan.v over Gen/Purity.v). *)
 From Coq Require Import List QArith Reals Qreals Lra.
 From PV Require Import Base.IPS Model.Dict Model.Terms Spec.Sem Proofs.DictLemmas Proofs.SemLemmas.
+From Coq Require Import String.
+From PV Require Import Model.PurityPlan Gen.Purity.
 Import ListNotations.
 Local Open Scope R_scope.
 
@@ -80,9 +83,37 @@ Example C06_example :
   /\ snd c = Ineq.
 Proof. cbv zeta. split; [cbn; tauto|]. split; vm_compute; reflexivity. Qed.
 
+Local Open Scope string_scope.
+
+(** "Operations never alter their operands", as an obligation over the SOURCE, regenerated on every run
+    (translator/tr_purity.py, fail-closed, -> Gen/Purity.v).  In every operator method of class Point and class Expression
+    (binary, reflected, unary, comparison, and any in-place dunder that may be added), in the three constructors they call
+    (where only the object under construction may be written) and in the dictionary helpers merge_dict / prune_dict /
+    multiply_dicts / symmetrize_dict -- all of which must be present -- no statement stores into, deletes from, updates in
+    place, or calls a mutating method on, an object that may be reachable from a parameter (`self`, `other`, the dict
+    arguments), no such object is handed to code outside the analysed set, nothing lies outside the grammar of the
+    analysis, and every helper returns a fresh dictionary.  The only writes found are the class counters / registries
+    updated by the constructors ([PGlobal], listed in Gen/Purity.v). *)
+Theorem C06_operators_do_not_write_operands :
+  purity_ok analysed purity_items helper_returns_fresh = true.
+Proof. vm_compute. reflexivity. Qed.
+
+(** Non-vacuity of the obligation: the same generated lists are rejected as soon as one write through an operand is
+    added (the accumulating `__add__`), one item is outside the grammar, one expected method has not been analysed, or one
+    helper may hand back its argument. *)
+Example C06_purity_obligation_rejects :
+  purity_ok analysed (PWrite WSubscript "Expression.__add__" "self.decomposition_dict[key] = value" :: purity_items)
+            helper_returns_fresh = false
+  /\ purity_ok analysed (POther "Point.__sub__" "nested function" :: purity_items) helper_returns_fresh = false
+  /\ purity_ok (filter (fun e => negb (pair_eqb e ("Point", "__rmul__"))) analysed) purity_items helper_returns_fresh = false
+  /\ purity_ok analysed purity_items (("merge_dict", false) :: helper_returns_fresh) = false
+  /\ purity_ok analysed purity_items [] = false.
+Proof. vm_compute. repeat split; reflexivity. Qed.
+
 Print Assumptions C06_tree_points.
 Print Assumptions C06_tree_expressions.
 Print Assumptions C06_comparisons.
 Print Assumptions C06_constraint_meaning.
 Print Assumptions C06_wf.
 Print Assumptions C06_prune_exact.
+Print Assumptions C06_operators_do_not_write_operands.
